@@ -283,6 +283,13 @@ func c19ShareCases(s *verifh.Session, rows map[string]c19Row, scenario, pair str
 			line := fmt.Sprintf("c19rel %s %s %s %s %s %d %s %s", o.owner, sf.Name, kind, rk, how, hs, rel, c19CtxFlags(orig, fo))
 			s.Case(line, "ok", true, "", rel != "bothzero",
 				fmt.Sprintf("scenario %q, %s: field %s.%s (%s) of the copy is %q relative to the original's", scenario, pair, o.owner, sf.Name, sf.Type, rel))
+			// the table claims less separation than the heap has (ShareJudge.staleButSafe): fine for the property,
+			// counted so that a stale extractor is visible (the bridge decides whether the stale table still proves
+			// separation). Fields whose `how` is only the first step (ShareJudge.howOverridden) are not counted.
+			if rk != "-" && (how == "assigned" || how == "absent") && rel == "fresh+eq" && !c19HowOverridden(o.owner, sf.Name, c19CtxFlags(orig, fo)) {
+				s.Count("table-weaker-than-heap")
+				s.Count("table-weaker-than-heap:" + o.owner + "." + sf.Name)
+			}
 			s.Count("rel:" + rel)
 			reached["rel:"+rel]++
 			if rk != "-" {
@@ -291,6 +298,18 @@ func c19ShareCases(s *verifh.Session, rows map[string]c19Row, scenario, pair str
 			}
 		}
 	}
+}
+
+// c19HowOverridden mirrors ShareJudge.howOverridden (for the histogram only; the judge is the model).
+func c19HowOverridden(owner, field, ctx string) bool {
+	fp, jar := strings.Contains(ctx, "f"), strings.Contains(ctx, "j")
+	switch {
+	case owner == "HTTPClient" && field == "Jar" && jar, owner == "HTTPClient" && field == "Transport",
+		owner == "Client" && field == "tlsFingerprint" && fp, owner == "Options" && field == "Debugf",
+		owner == "Options" && field == "TLSHandshakeContext" && fp:
+		return true
+	}
+	return false
 }
 
 func TestVerif_C19_share(t *testing.T) {
